@@ -398,9 +398,11 @@ pub fn random_project(t: &mut Tape, safe: bool, avoided: &mut u64) -> Proj {
     let reserved_us = names::js_reserved_with_underscore();
     let mut event_pool: Vec<String> = vec![];
     for ci in 0..n_cmds {
-        let mut name = match t.pick(12) {
+        let mut name = match t.pick(13) {
             0 | 1 => t.choose(&reserved).to_string(),
             2 => t.choose(&reserved_us).clone(),
+            // names the generated modules use themselves (imports of commands.ts)
+            3 => t.choose(&["invoke", "types", "channel", "listen"]).to_string(),
             _ => names::random_snake(t),
         };
         if safe && (names::JS_RESERVED.contains(&unraw(&name)) || name.starts_with("r#")) {
@@ -534,6 +536,20 @@ pub fn random_project(t: &mut Tape, safe: bool, avoided: &mut u64) -> Proj {
             features.insert("has=bare_command_attr".into());
         }
         commands.push(CmdM { name, file: t.pick(n_files), is_async: t.bool(), params, ret, emits, attr });
+    }
+    // the common pattern `fn create_user(params: CreateUserParams)`: a project struct named like the
+    // parameter object the tool derives for the command
+    if t.chance(1, 5) {
+        let ci = t.pick(commands.len());
+        let sname = format!("{}Params", heck::ToUpperCamelCase::to_upper_camel_case(unraw(&commands[ci].name)));
+        if names::is_rust_ident(&sname) && !structs.iter().any(|s: &StructM| s.name == sname) && !enums.iter().any(|e: &EnumM| e.name == sname) {
+            let file = commands[ci].file;
+            structs.push(StructM { name: sname.clone(), file, rename_all: None, fields: vec![FieldM { name: "id".into(), ty: Ty::Prim("i32"), rename: None, skip: false, validate: None }], unit: false, noise: String::new() });
+            if !commands[ci].params.iter().any(|p| matches!(p, ParamM::Value { name, .. } | ParamM::Injected { name, .. } | ParamM::Channel { name, .. } if name == "params")) {
+                commands[ci].params.push(ParamM::Value { name: "params".into(), ty: Ty::Named(sname) });
+            }
+            features.insert("has=struct_named_like_params_object".into());
+        }
     }
     // fix payload indices robustly: re-point every param payload at a Value parameter
     for c in &mut commands {
